@@ -496,15 +496,24 @@ func checkC06(c *hx.Checker) {
 				jc.dom = hx.DRefuse
 				jobs = append(jobs, jc)
 			}
-			bad := base
-			bad.Acts = make([]string, nAct)
-			for i := range bad.Acts {
-				bad.Acts[i] = "tanh"
+			// an unsupported name / the ONNX spelling at EACH single position of an otherwise supported list (a list is
+			// refused as a whole, whichever entry is the offending one)
+			for pos := 0; pos < nAct; pos++ {
+				for _, odd := range []string{"softsign", "Tanh", "Sigmoid", ""} {
+					bad := base
+					bad.Acts = make([]string, nAct)
+					for i := range bad.Acts {
+						bad.Acts[i] = []string{"sigmoid", "tanh", "relu"}[(i+1)%3]
+					}
+					bad.Acts[pos] = odd
+					jb := bad.job()
+					jb.tags = append(jb.tags, "unknown-activation", fmt.Sprintf("odd-activation-at=%d", pos))
+					if odd == "Tanh" || odd == "Sigmoid" {
+						jb.dom = hx.DRefuse // the reference reads the ONNX spelling: honoured or refused
+					}
+					jobs = append(jobs, jb)
+				}
 			}
-			bad.Acts[nAct-1] = "softsign"
-			jb := bad.job()
-			jb.tags = append(jb.tags, "unknown-activation")
-			jobs = append(jobs, jb)
 			for _, n := range []int{nAct - 1, nAct + 1} {
 				if n < 1 {
 					continue
